@@ -8,6 +8,7 @@ pub mod conc;
 pub mod crash;
 pub mod faults;
 pub mod handles;
+pub mod index;
 pub mod l2checks;
 pub mod lifecycle;
 
@@ -20,6 +21,7 @@ pub fn all() -> Vec<&'static dyn Check> {
     v.extend(handles::checks());
     v.extend(l2checks::checks());
     v.extend(clock::checks());
+    v.extend(index::checks());
     v.extend(faults::checks());
     v
 }
